@@ -29,6 +29,9 @@ def verdictAttr (impl cur : T) (specOk : Bool) (attr : List String) : String :=
     if specOk then "ok"
     else if attr.isEmpty then "unattributed " ++ cur.render
     else "dev " ++ ",".intercalate attr.eraseDups
+  else if !specOk && !attr.isEmpty then
+    -- the oracle fails on a case that also exercises listed deviations: not evidence of a new failure
+    "mismatch spec-bad-known " ++ ",".intercalate attr.eraseDups ++ " " ++ cur.render
   else "mismatch " ++ (if specOk then "spec-ok " else "spec-bad ") ++ cur.render
 
 /-- verdict line:
@@ -51,6 +54,10 @@ def verdict (impl cur : T) (alts : List Alt) (specOk : Bool) : String :=
     | some a =>
       if a.onInCur then (if specOk then "repaired " ++ a.flag else "mismatch spec-bad " ++ cur.render)
       else "regress " ++ a.flag ++ (if specOk then " spec-ok" else " spec-bad")
-    | none => "mismatch " ++ (if specOk then "spec-ok " else "spec-bad ") ++ cur.render
+    | none =>
+      let trig := alts.filter (fun a => a.onInCur && !(a.obs == cur))
+      if !specOk && !trig.isEmpty then
+        "mismatch spec-bad-known " ++ ",".intercalate (trig.map (·.flag)) ++ " " ++ cur.render
+      else "mismatch " ++ (if specOk then "spec-ok " else "spec-bad ") ++ cur.render
 
 end Ggql.Driver
